@@ -44,97 +44,120 @@ func overflowMain(args []string) int {
 		col.done([]byte(`{"scenario":"inotify queue overflow"}`), false, 0)
 		return col.finish(start)
 	}
-	pan, stack, hung := guarded(120*time.Second, func() {
-		w := &autoWorld{root: mkScratch("overflow")}
-		defer os.RemoveAll(w.root)
-		_ = os.MkdirAll(filepath.Join(w.root, "dirs"), 0o755)
-		_ = os.MkdirAll(filepath.Join(w.root, "stage"), 0o755)
-		_ = w.present("A")
-		cache, _ := cdi.NewCache(cdi.WithSpecDirs(w.dir("A")), cdi.WithAutoRefresh(true))
-		g := &gate{tokens: make(chan struct{}), inner: make(chan struct{}), tail: make(chan struct{})}
-		gates.Store(&cache.Mutex, g)
-		cs := ""
-		defer func() {
-			g.leave(cs)
+	for _, variant := range []string{"file replaced", "directory replaced"} {
+		variant := variant
+		pan, stack, hung := guarded(120*time.Second, func() {
+			w := &autoWorld{root: mkScratch("overflow")}
+			defer os.RemoveAll(w.root)
+			_ = os.MkdirAll(filepath.Join(w.root, "dirs"), 0o755)
+			_ = os.MkdirAll(filepath.Join(w.root, "stage"), 0o755)
+			_ = w.present("A")
+			cache, _ := cdi.NewCache(cdi.WithSpecDirs(w.dir("A")), cdi.WithAutoRefresh(true))
+			g := &gate{tokens: make(chan struct{}), inner: make(chan struct{}), tail: make(chan struct{})}
+			gates.Store(&cache.Mutex, g)
+			cs := ""
+			defer func() {
+				g.leave(cs)
+				g.open()
+				gates.Delete(&cache.Mutex)
+				_ = cache.Configure(cdi.WithAutoRefresh(false))
+			}()
+			moveIn := func(c int) error {
+				st := w.staging()
+				if err := os.WriteFile(st, autoContent("A", c), 0o644); err != nil {
+					return err
+				}
+				return os.Rename(st, w.file("A", "f.json"))
+			}
+			atomic.StoreInt32(&g.closed, 1)
+			if err := moveIn(1); err != nil { // 1.
+				col.add(Mismatch{Props: []string{"TOOL"}, What: "fs-op", Note: err.Error()})
+				return
+			}
+			for end := time.Now().Add(2 * time.Second); atomic.LoadInt32(&g.waiting) == 0 && time.Now().Before(end); {
+				time.Sleep(time.Millisecond)
+			}
+			if atomic.LoadInt32(&g.waiting) == 0 {
+				col.add(Mismatch{Props: []string{"TOOL"}, What: "the watcher goroutine did not receive the first event"})
+				return
+			}
+			// only Create and Write events of names without a Spec extension are ignored by the cache (a Remove
+			// makes it rescan whatever the name), and the kernel merges an event equal to the newest queued one:
+			// alternate writes to two files
+			tmps := []*os.File{}
+			for _, n := range []string{"a.tmp", "b.tmp"} {
+				f, err := os.OpenFile(w.file("A", n), os.O_CREATE|os.O_WRONLY, 0o644)
+				if err != nil {
+					col.add(Mismatch{Props: []string{"TOOL"}, What: "fs-op", Note: err.Error()})
+					return
+				}
+				defer f.Close()
+				tmps = append(tmps, f)
+			}
+			for i := 0; i < limit+4096; i++ { // 2.
+				if _, err := tmps[i%2].Write([]byte{'x'}); err != nil {
+					col.add(Mismatch{Props: []string{"TOOL"}, What: "fs-op", Note: err.Error()})
+					return
+				}
+			}
+			if cs = g.stepIn(2 * time.Second); cs == "inner" { // 3.
+				cs = g.stepScan()
+			}
+			if cs != "tail" {
+				// code that does not visit the observation points in this order: the scenario cannot be staged
+				col.count("scenario_not_staged", 1)
+				return
+			}
+			col.count("scenario_staged", 1)
+			if variant == "file replaced" {
+				if err := moveIn(2); err != nil { // 4.
+					col.add(Mismatch{Props: []string{"TOOL"}, What: "fs-op", Note: err.Error()})
+					return
+				}
+			} else {
+				// 4'. the directory itself is removed and created again: all of it unseen
+				for _, f := range tmps {
+					f.Close()
+				}
+				_ = os.RemoveAll(w.dir("A"))
+				if err := os.Mkdir(w.dir("A"), 0o755); err != nil {
+					col.add(Mismatch{Props: []string{"TOOL"}, What: "fs-op", Note: err.Error()})
+					return
+				}
+			}
+			g.leave(cs) // 5.
+			cs = ""
 			g.open()
-			gates.Delete(&cache.Mutex)
-			_ = cache.Configure(cdi.WithAutoRefresh(false))
-		}()
-		moveIn := func(c int) error {
-			st := w.staging()
-			if err := os.WriteFile(st, autoContent("A", c), 0o644); err != nil {
-				return err
+			if variant != "file replaced" {
+				// 6'. when everything has been consumed, a file appears in the new directory
+				time.Sleep(300 * time.Millisecond)
+				if err := moveIn(2); err != nil {
+					col.add(Mismatch{Props: []string{"TOOL"}, What: "fs-op", Note: err.Error()})
+					return
+				}
 			}
-			return os.Rename(st, w.file("A", "f.json"))
-		}
-		atomic.StoreInt32(&g.closed, 1)
-		if err := moveIn(1); err != nil { // 1.
-			col.add(Mismatch{Props: []string{"TOOL"}, What: "fs-op", Note: err.Error()})
-			return
-		}
-		for end := time.Now().Add(2 * time.Second); atomic.LoadInt32(&g.waiting) == 0 && time.Now().Before(end); {
-			time.Sleep(time.Millisecond)
-		}
-		if atomic.LoadInt32(&g.waiting) == 0 {
-			col.add(Mismatch{Props: []string{"TOOL"}, What: "the watcher goroutine did not receive the first event"})
-			return
-		}
-		// only Create and Write events of names without a Spec extension are ignored by the cache (a Remove
-		// makes it rescan whatever the name), and the kernel merges an event equal to the newest queued one:
-		// alternate writes to two files
-		tmps := []*os.File{}
-		for _, n := range []string{"a.tmp", "b.tmp"} {
-			f, err := os.OpenFile(w.file("A", n), os.O_CREATE|os.O_WRONLY, 0o644)
-			if err != nil {
-				col.add(Mismatch{Props: []string{"TOOL"}, What: "fs-op", Note: err.Error()})
-				return
+			want := 2
+			got := 0
+			for end := time.Now().Add(10 * time.Second); time.Now().Before(end); time.Sleep(20 * time.Millisecond) {
+				if d := cache.GetDevice(autoKind("A") + "=dev"); d != nil {
+					got = atoi(envVal(d.ContainerEdits.Env, "V"))
+				}
+				if got == want {
+					break
+				}
 			}
-			defer f.Close()
-			tmps = append(tmps, f)
-		}
-		for i := 0; i < limit+4096; i++ { // 2.
-			if _, err := tmps[i%2].Write([]byte{'x'}); err != nil {
-				col.add(Mismatch{Props: []string{"TOOL"}, What: "fs-op", Note: err.Error()})
-				return
+			if got != want {
+				col.add(Mismatch{Props: []string{"C11"}, What: "no-convergence-after-inotify-queue-overflow", Want: fmt.Sprintf("V=%d (what a new cache returns)", want), Got: fmt.Sprintf("V=%d for 10 s", got),
+					Note: fmt.Sprintf("%s while the kernel queue (%d events) was full; nothing else changes afterwards", variant, limit)})
 			}
+		})
+		if pan != nil {
+			col.add(Mismatch{Props: []string{"C08", "C11"}, What: "panic", Got: fmt.Sprint(pan), Note: stack})
 		}
-		if cs = g.stepIn(2 * time.Second); cs == "inner" { // 3.
-			cs = g.stepScan()
+		if hung {
+			col.add(Mismatch{Props: []string{"C11"}, What: "hang"})
 		}
-		if cs != "tail" {
-			// code that does not visit the observation points in this order: the scenario cannot be staged
-			col.count("scenario_not_staged", 1)
-			return
-		}
-		col.count("scenario_staged", 1)
-		if err := moveIn(2); err != nil { // 4.
-			col.add(Mismatch{Props: []string{"TOOL"}, What: "fs-op", Note: err.Error()})
-			return
-		}
-		g.leave(cs) // 5.
-		cs = ""
-		g.open()
-		want := 2
-		got := 0
-		for end := time.Now().Add(10 * time.Second); time.Now().Before(end); time.Sleep(20 * time.Millisecond) {
-			if d := cache.GetDevice(autoKind("A") + "=dev"); d != nil {
-				got = atoi(envVal(d.ContainerEdits.Env, "V"))
-			}
-			if got == want {
-				break
-			}
-		}
-		if got != want {
-			col.add(Mismatch{Props: []string{"C11"}, What: "no-convergence-after-inotify-queue-overflow", Want: fmt.Sprintf("V=%d (what a new cache returns)", want), Got: fmt.Sprintf("V=%d for 10 s", got),
-				Note: fmt.Sprintf("the Spec file was replaced while the kernel queue (%d events) was full; nothing else changes afterwards", limit)})
-		}
-	})
-	if pan != nil {
-		col.add(Mismatch{Props: []string{"C08", "C11"}, What: "panic", Got: fmt.Sprint(pan), Note: stack})
+		col.done([]byte(`{"scenario":"inotify queue overflow, `+variant+`"}`), true, 5)
 	}
-	if hung {
-		col.add(Mismatch{Props: []string{"C11"}, What: "hang"})
-	}
-	col.done([]byte(`{"scenario":"inotify queue overflow"}`), true, 5)
 	return col.finish(start)
 }
